@@ -69,6 +69,11 @@ INIT_MENU = [
     # the same wildcard import written twice around another one (the last statement wins, again), and a type-guarded one after a real one (binds nothing)
     ("wild-a-b-a", "from .a import *\nfrom .b import *\nfrom .a import *"), ("wild-b-a-b", "from .b import *\nfrom .a import *\nfrom .b import *"),
     ("wild-a-tc-wild-b", "from .a import *\nfrom typing import TYPE_CHECKING\nif TYPE_CHECKING:\n    from .b import *"),
+    # the same wildcard import written twice with one of its names re-bound in between (by a definition, by another import): the second one binds it again
+    ("wild-a-def-x-wild-a", "from .a import *\ndef x(): ...\nfrom .a import *"), ("wild-a-from-b-x-wild-a", "from .a import *\nfrom .b import x\nfrom .a import *"),
+    # __all__ assembled from the lists of TWO modules, the second one added by an augmented assignment
+    ("all*a+=b", "from . import a, b\nfrom .a import *\nfrom .b import *\n__all__ = [*a.__all__]\n__all__ += b.__all__"),
+    ("all+a+=b", "from . import a, b\nfrom .a import *\nfrom .b import *\n__all__ = ['a'] + a.__all__\n__all__ += b.__all__"),
 ]
 INIT_MENU_EXTRA = [
     ("from-a-_p", "from .a import _p"), ("wild-a-all*", "from . import a\nfrom .a import *\n__all__ = [*a.__all__]"), ("from-b-x", "from .b import x"), ("val-x-then-wild-a", "x = V('pkg:x')\nfrom .a import *"),
